@@ -1,0 +1,87 @@
+//go:build verif
+
+package throttle
+
+// Accessors for the external verification harness (build tag `verif`,
+// property C16). Nothing here is used by production code.
+
+import "time"
+
+// VerifSetNowFn installs a clock for the shared limiters map of the named
+// pipeline (the map is created by the first Plugin.Start of that pipeline):
+// limiters created later take it from the map, already existing limiters get
+// it too. It is the same call the package's own tests use
+// (limitersMap.setNowFn(fn, true)). Returns false if the pipeline has no
+// limiters map (throttle plugin not started).
+//
+// Places where the throttle package reads time: inMemoryLimiter.nowFn (window
+// position, set here), Plugin.isAllowed (time.Now as the event time when the
+// time field is absent or unparsable; not redirected), limitersMap.curGen /
+// maintenance (real time, only used for limiter expiration; not redirected).
+func VerifSetNowFn(pipelineName string, fn func() time.Time) bool {
+	maps := verifMapsOf(pipelineName)
+	for _, lm := range maps {
+		lm.setNowFn(fn, true)
+	}
+	return len(maps) > 0
+}
+
+// verifMapsOf returns the limiters maps registered for a pipeline: the entry
+// named exactly like the pipeline (today's layout: one map per pipeline) and
+// any entry named "<pipeline><separator>..." (should the registry ever be keyed
+// per action).
+func verifMapsOf(pipelineName string) []*limitersMap {
+	limitersMu.RLock()
+	defer limitersMu.RUnlock()
+	var out []*limitersMap
+	for name, lm := range limiters {
+		if verifBelongs(name, pipelineName) {
+			out = append(out, lm)
+		}
+	}
+	return out
+}
+
+func verifBelongs(name, pipelineName string) bool {
+	if name == pipelineName {
+		return true
+	}
+	if len(name) <= len(pipelineName) || name[:len(pipelineName)] != pipelineName {
+		return false
+	}
+	c := name[len(pipelineName)]
+	isAlnum := c == '_' || (c >= '0' && c <= '9') || (c >= 'a' && c <= 'z') || (c >= 'A' && c <= 'Z')
+	return !isAlnum
+}
+
+// VerifLimitersLen returns the number of limiters currently held for the
+// named pipeline (-1 if there is no map).
+func VerifLimitersLen(pipelineName string) int {
+	maps := verifMapsOf(pipelineName)
+	if len(maps) == 0 {
+		return -1
+	}
+	n := 0
+	for _, lm := range maps {
+		lm.mu.RLock()
+		n += len(lm.lims)
+		lm.mu.RUnlock()
+	}
+	return n
+}
+
+// VerifLimitersMaps returns how many limiters maps exist for the pipeline.
+func VerifLimitersMaps(pipelineName string) int { return len(verifMapsOf(pipelineName)) }
+
+// VerifForget drops the shared limiters map of a (stopped) pipeline from the
+// package-level registry, so that a long-running harness process that starts
+// thousands of uniquely named pipelines does not accumulate them.
+func VerifForget(pipelineName string) {
+	limitersMu.Lock()
+	for name := range limiters {
+		if verifBelongs(name, pipelineName) {
+			delete(limiters, name)
+		}
+	}
+	limitersMu.Unlock()
+}
